@@ -58,6 +58,32 @@ def gen_pred(rng, var, d):
     return f"{a} {op} {b}", [op, sa, sb]
 
 
+def gen_body(rng, var: str, d: int, funs: bool = False):
+    """The value computed from one element: arithmetic, or + - * over conditional expressions `a if c else b`
+    (test a comparison, arms arithmetic)."""
+    k = rng.random()
+    if k < 0.65:
+        return gen_pa(rng, var, d, funs)
+
+    def cond():
+        c, sc = gen_pred(rng, var, rng.choice([0, 1]))
+        a, sa = gen_pa(rng, var, rng.choice([0, 1]), funs)
+        b, sb = gen_pa(rng, var, rng.choice([0, 1]), funs)
+        return f"({a} if {c} else {b})", ["if", sc, sa, sb]
+
+    x, sx = cond()
+    if k < 0.85:
+        return x, sx
+    op = rng.choice(["+", "-", "*"])
+    if rng.random() < 0.5:
+        y, sy = cond()
+    else:
+        y, sy = gen_pa(rng, var, rng.choice([0, 1]), funs)
+    if rng.random() < 0.5:
+        return f"({x}{op}{y})", ["bbin", op, sx, sy]
+    return f"({y}{op}{x})", ["bbin", op, sy, sx]
+
+
 def gen_guard(rng, nvar: List[int], d_choices=(0, 1, 2)):
     """The filter between a collection and its consumer -> (source suffix, guard on the wire).
     none | one Where | Where(p and q [and r]) | Where(p or q [or r]) | Where(p).Where(q) (func_adl fuses it into `and`)"""
@@ -97,7 +123,7 @@ def gen_count(rng, uni: qgen.Universe, ev: str, uses: List[Tuple[str, str]], nva
     if rng.random() < 0.45:
         nvar[0] += 1
         v = f"y{nvar[0]}"
-        b, sb = gen_pa(rng, v, rng.choice([0, 1, 2]))   # no functions here: a Sum of uninterpreted values may reach a comparison
+        b, sb = gen_body(rng, v, rng.choice([0, 1, 2]))   # no functions here: a Sum of uninterpreted values may reach a comparison
         return src + f".Select(lambda {v}: {b}).Sum()", ["count", [name.lower(), ct, bank, arrow, preds, ["sum", sb]]]
     return src + ".Count()", ["count", [name.lower(), ct, bank, arrow, preds, ["count"]]]
 
@@ -134,7 +160,7 @@ def gen_vec(rng, uni: qgen.Universe, ev: str, uses, nvar):
     src = f'{ev}.{name}("{bank}")' + g_src
     nvar[0] += 1
     v = f"y{nvar[0]}"
-    b, sb = gen_pa(rng, v, rng.choice([0, 1, 2]), funs=True)
+    b, sb = gen_body(rng, v, rng.choice([0, 1, 2]), funs=True)
     return src + f".Select(lambda {v}: {b})", ["vec", name.lower(), ct, bank, arrow, preds, sb]
 
 
@@ -214,7 +240,7 @@ def gen_row(rng: random.Random, uni: qgen.Universe, depth: int):
 def gen_prow(rng, var: str):
     """-> (body source, names, [(name, pa sexp)])"""
     n = rng.choice([1, 1, 2, 3])
-    cols = [gen_pa(rng, var, rng.choice([0, 1, 2]), funs=True) for _ in range(n)]
+    cols = [gen_body(rng, var, rng.choice([0, 1, 2]), funs=True) for _ in range(n)]
     form = rng.choice(["tuple", "list", "dict"]) if n > 1 else rng.choice(["bare", "dict", "tuple"])
     if form == "bare":
         names, body = ["col1"], cols[0][0]
